@@ -206,3 +206,33 @@ func VH_C08_expired_at_load(kind, isRule int) {
 	vassert(gerr != nil, "storage-agrees-after-reload")
 	vreach("end")
 }
+
+// VH_C08_lapsed_chain: c names b, b names a; b's expiry instant has passed but nobody has
+// looked at b since. Removing a deletes b as its dependent and, transitively, c — from
+// memory and from storage.
+func VH_C08_lapsed_chain(kind int) {
+	env := vhNewEnv(kind)
+	t0 := int64(1600000000)
+	vsetNow(t0 * 1000000000)
+	_, err := env.loc.AddFact(env.ctx, "a", Map{"n": "1"})
+	vassume(err == nil)
+	_, err = env.loc.AddFact(env.ctx, "b", Map{"n": "2", KW_DeleteWith: []interface{}{"a"}, "expires": float64(t0 + 10)})
+	vassume(err == nil)
+	_, err = env.loc.AddFact(env.ctx, "c", Map{"n": "3", KW_DeleteWith: []interface{}{"b"}})
+	vassume(err == nil)
+	vsetNow((t0 + 20) * 1000000000)
+	_, err = env.loc.RemFact(env.ctx, "a")
+	vassert(err == nil, "rem-succeeds")
+	// c first: looking at b would notice its expiry and cascade by itself
+	for _, id := range []string{"c", "a", "b"} {
+		_, gerr := env.state.Get(env.ctx, id)
+		vassert(gerr != nil, "deleted-iff-transitive-dependent")
+	}
+	re := vhOpenEnv(kind, env.ctx, env.store, env.name)
+	// c first: looking at b would notice its expiry and cascade by itself
+	for _, id := range []string{"c", "a", "b"} {
+		_, gerr := re.state.Get(re.ctx, id)
+		vassert(gerr != nil, "storage-agrees-after-reload")
+	}
+	vreach("end")
+}
